@@ -61,7 +61,7 @@ for pid in sorted(LEVELS):
         "replay_cmd_template": "./check --replay {path}",
         "engine": "vp-harness",
         "level_claimed": {"category": level, "text": text, "design_ref": f"DESIGN.md section {ref}"},
-        "level_note": "Trusted base: the Go toolchain, the harness reference models (harness/ref*.go, independent of /repo), for C18/C07 the Go race detector and porcupine v1.3.0. Verdicts are held-on-observed: they cover exactly the executions counted in the evidence file.",
+        "level_note": "Trusted base: the Go toolchain, the harness reference models (harness/ref*.go, independent of /repo), the Go race detector (C06, C07, C09, C18, C19, C20) and porcupine v1.3.0 (C18). Verdicts are held-on-observed: they cover exactly the executions counted in the evidence file.",
         "technique": "runtime monitoring: " + technique,
     })
 
@@ -79,7 +79,7 @@ manifest = {
         "name": "vp-harness",
         "path": "/verif/harness",
         "serves_properties": sorted(LEVELS),
-        "kind_free_text": "Go program linked against /repo: workload generators, reference models and one runtime monitor per property; -race child binary for C07/C18; porcupine for C18",
+        "kind_free_text": "Go program linked against /repo: workload generators, reference models and one runtime monitor per property; -race child binary for C06, C07, C09, C18, C19, C20; porcupine for C18",
     }],
     "checks": checks,
     "not_applicable": [],
